@@ -137,6 +137,10 @@ func genC15Message(t *rapid.T) (*ScalarCase, string, string) {
 		item += "|" + msg
 	} else {
 		class = "none"
+		if v.re == "" && rapid.IntRange(0, 3).Draw(t, "emptyMsg") == 2 {
+			item += "|" // an explicitly empty message (what GenValidKV(key, val, "") writes): the default wording
+			class = "explicitly-empty"
+		}
 	}
 	if v.re != "" {
 		c.RePats[item] = v.re
